@@ -3181,7 +3181,14 @@ class Map(TraitType):
         return self.map[value]
 
     def post_setattr(self, object, name, value):
-        setattr(object, name + "_", self.mapped_value(value))
+        try:
+            mapped_value = self.mapped_value(value)
+        except (KeyError, TypeError):
+            # The value is not one of this trait's keys: the trait is one
+            # alternative of a compound trait and another alternative accepted
+            # the value. As with TraitMap, tell the compound handler so.
+            raise TraitError("Unmappable")
+        setattr(object, name + "_", mapped_value)
 
     def info(self):
         keys = sorted(repr(x) for x in self.map.keys())
@@ -3307,7 +3314,12 @@ class PrefixMap(TraitType):
         return self.map[value]
 
     def post_setattr(self, object, name, value):
-        setattr(object, name + "_", self.mapped_value(value))
+        try:
+            mapped_value = self.mapped_value(value)
+        except (KeyError, TypeError):
+            # Not one of this trait's keys: see Map.post_setattr.
+            raise TraitError("Unmappable")
+        setattr(object, name + "_", mapped_value)
 
     def info(self):
         return (
